@@ -90,7 +90,12 @@ var LastTimeoutDump string
 func Run(job *kjob.Job, o RunOpts) (*RunResult, error) {
 	var r *RunResult
 	var err error
+	base := o.Timeout
+	if base == 0 {
+		base = 30 * time.Second
+	}
 	for attempt := 0; attempt < 3; attempt++ {
+		o.Timeout = base << uint(attempt) // a loaded machine: the later attempts are given two and four times as long
 		r, err = runOnce(job, o)
 		if err != nil || !r.TimedOut {
 			return r, err
